@@ -47,6 +47,7 @@ static void observe(qhashtbl_t *t, const model_t *m, const char *after) {
     errno = 0; if (t->put(t, NULL, "x", 1) || errno != EINVAL) vc_viol("map:einval", "put(NULL name) not refused with EINVAL");
     errno = 0; if (t->remove(t, NULL) || errno != EINVAL) vc_viol("map:einval", "remove(NULL) not refused with EINVAL");
     for (int i = 0; i < U; i++) { void *d = t->get(t, KEYS[i], NULL, false); if ((d != NULL) != (m->present[i] != 0)) vc_viol("map:null-size-pointer", "after %s: get('%s') without a size pointer disagrees with the map", after, KEYS[i]); }
+    if (t->range != EFFRANGE) vc_viol("map:range", "after %s: range %zu, constructed with %zu", after, t->range, EFFRANGE);
     if ((int)t->size(t) != m_count(m)) vc_viol("map:size", "after %s: size() = %zu, %d distinct keys stored", after, t->size(t), m_count(m));
     for (int i = 0; i < U; i++) {
         size_t kn = strlen(KEYS[i]) + 1;
